@@ -5,6 +5,11 @@ import (
 	"fmt"
 	"strconv"
 
+	"github.com/transparency-dev/witness/internal/feeder/bastion"
+	"github.com/transparency-dev/witness/omniwitness"
+	"github.com/transparency-dev/witness/verifmc/choice"
+	"golang.org/x/time/rate"
+
 	"github.com/transparency-dev/witness/verifmc/ev"
 	"github.com/transparency-dev/witness/verifmc/uni"
 	"github.com/transparency-dev/witness/verifmc/wh"
@@ -12,6 +17,122 @@ import (
 
 func init() {
 	Replayers["witness-path"] = replayWitnessPath
+	Replayers["parse-body"] = replayParseBody
+	Replayers["http-body"] = replayHTTPBody
+	Replayers["fault-history"] = replayFaultHistory
+	Replayers["feed-cycle"] = replayFeedCycle
+	Replayers["distribute"] = replayDistribute
+}
+
+func scratchRun(m map[string]any) *ev.Run {
+	prop, _ := m["property"].(string)
+	r := ev.NewRun(prop, "quick", "other")
+	r.Scratch = true
+	return r
+}
+
+func intsOf(v any) []int {
+	var out []int
+	if l, ok := v.([]any); ok {
+		for _, x := range l {
+			if f, ok := x.(float64); ok {
+				out = append(out, int(f))
+			}
+		}
+	}
+	return out
+}
+
+func stringsOf(v any) []string {
+	var out []string
+	if l, ok := v.([]any); ok {
+		for _, x := range l {
+			out = append(out, fmt.Sprint(x))
+		}
+	}
+	return out
+}
+
+// replayParseBody: the recorded body through parseBody and the reference parser.
+func replayParseBody(m map[string]any) int {
+	b, _ := base64.StdEncoding.DecodeString(fmt.Sprint(m["body_b64"]))
+	run := scratchRun(m)
+	fmt.Printf("body: %q\nreference parser: %+v\n", b, refParse(b).Class+" "+refParse(b).Why)
+	c11Judge(run, b, "replay")
+	return run.Finish()
+}
+
+// replayHTTPBody: the recorded body to the real handler in front of the real witness.
+func replayHTTPBody(m map[string]any) int {
+	wh.InstallLogicalClock()
+	b, _ := base64.StdEncoding.DecodeString(fmt.Sprint(m["body_b64"]))
+	u := uni.New(ev.Seed(), 8, []int{0})
+	gen := wh.NewCPGen(u)
+	la := wh.LogCfg{Origin: logA(), Key: u.K1}
+	lb := wh.LogCfg{Origin: logB(), Key: u.K2}
+	e := wh.NewEnv(u, wh.Config{Store: "mem", Logs: []wh.LogCfg{la, lb}})
+	defer e.Close()
+	if s, _ := m["seeded"].(bool); s {
+		cp, meta := gen.Get(la, u.Main, 4, "plain")
+		e.Do(wh.Req{LogID: la.ID(), CP: cp, Meta: meta})
+	}
+	h := bastion.VerifNewHandler(omniwitness.VerifWitnessAdapter(e.W), c10Logs(la, lb), u.W1.CosigVerif, rate.Inf, 1, true)
+	var pan any
+	var resp httpResp
+	func() {
+		defer func() { pan = recover() }()
+		resp = c10Serve(h, b)
+	}()
+	fmt.Printf("body: %q\npanic: %v\nstatus: %d content-type: %q body: %q\n", short(string(b)), pan, resp.Status, resp.CT, resp.Body)
+	if pan != nil || !c19Statuses[resp.Status] {
+		fmt.Println("REPRODUCED")
+		return 1
+	}
+	return 0
+}
+
+func replayFaultHistory(m map[string]any) int {
+	wh.InstallLogicalClock()
+	run := scratchRun(m)
+	u := uni.New(ev.Seed(), 9, []int{0})
+	gen := wh.NewCPGen(u)
+	la := wh.LogCfg{Origin: logA(), Key: u.K1}
+	lb := wh.LogCfg{Origin: logB(), Key: u.K2}
+	for _, h := range faultHistories(u, gen, la, lb) {
+		if h.Name != m["history"] {
+			continue
+		}
+		after, _ := m["after_effect"].(bool)
+		c := choice.Replay(intsOf(m["choices"]), func(c *choice.C) {
+			faultExec(run, run.Property, u, gen, []wh.LogCfg{la, lb}, fmt.Sprint(m["store"]), faultMode{Level: fmt.Sprint(m["level"]), AfterEffect: after}, h, c, run.Property == "C03")
+		})
+		fmt.Printf("history %s on %s store, %s-level faults: %v\n", h.Name, m["store"], m["level"], c.Trace())
+	}
+	return run.Finish()
+}
+
+func replayFeedCycle(m map[string]any) int {
+	wh.InstallLogicalClock()
+	run := scratchRun(m)
+	u := uni.New(ev.Seed(), 8, []int{0})
+	gen := wh.NewCPGen(u)
+	la := wh.LogCfg{Origin: logA(), Key: u.K1}
+	var sc c13Scenario
+	var mode string
+	fmt.Sscanf(fmt.Sprint(m["scenario"]), "%s witness=%d head=%d %s", &mode, &sc.W, &sc.Head, &sc.Kind)
+	sc.Real = mode == "real"
+	ch := intsOf(m["choices"])
+	c := choice.Replay(ch, func(c *choice.C) { c13Exec(run, u, gen, la, sc, c, 5) })
+	fmt.Printf("scenario %s, environment answers %v\n", sc, c.Trace())
+	return run.Finish()
+}
+
+func replayDistribute(m map[string]any) int {
+	run := scratchRun(m)
+	u := uni.New(ev.Seed(), 12, nil)
+	fmt.Printf("logs %v\nwitness answers %v\ndistributor answers %v\n", m["origins"], m["witness_answers"], m["distributor_answers"])
+	c15Run(run, u, stringsOf(m["origins"]), stringsOf(m["witness_answers"]), stringsOf(m["distributor_answers"]))
+	return run.Finish()
 }
 
 func reqFromJSON(m map[string]any) wh.Req {
